@@ -3,7 +3,7 @@ import ast
 
 from ..astx import (calls_in, dotted, norm, src, iter_nodes, assigned_targets, assigned_names,
                     const_value, is_const, parent_chain, aliases_of)
-from ..lib import (cfg_nodes_with_call, node_calls, returns, stmt_assigns_attr, callee_last,
+from ..lib import (is_bytes_mode_text_guard, cfg_nodes_with_call, node_calls, returns, stmt_assigns_attr, callee_last,
                    is_name, is_self_attr, node_roots, guard_region)
 from ..linear import ctext
 from ..loader import AnalysisError
@@ -81,8 +81,7 @@ def run(R):
         rets = returns(f)
         plain = [r for r in rets if is_name(r.ast.value, f.params[1])]
         tests = [t for t in g.nodes if t.kind == 'test']
-        okp = len(plain) == 1 and len(tests) == 1 and 'self.encoding is None' in norm(tests[0].ast) and 'isinstance' in norm(tests[0].ast) \
-            and 'bytes' in norm(tests[0].ast)
+        okp = len(plain) == 1 and len(tests) == 1 and is_bytes_mode_text_guard(tests[0].ast, f.params[1], True)
         c.check(okp, f, tests[0].ast if tests else None, 'only non-bytes given to a bytes-mode object are converted; everything else is returned unchanged',
                 witness=norm(tests[0].ast) if tests else '', kind='ast', tag='coerce-guard')
 
@@ -306,6 +305,7 @@ MUTANTS = [
     ('sendeof-twice', 'pty_spawn', "        n, byte = self.ptyproc.sendeof()\n        self._log_control(byte)", "        n, byte = self.ptyproc.sendeof()\n        n, byte = self.ptyproc.sendeof()\n        self._log_control(byte)", 'D4'),
     ('sendintr-as-eof', 'pty_spawn', "        n, byte = self.ptyproc.sendintr()", "        n, byte = self.ptyproc.sendeof()", 'D4'),
     ('coerce-latin1', 'spawnbase', "            return s.encode('utf-8')\n        return s\n\n    def _get_buffer", "            return s.encode('latin-1')\n        return s\n\n    def _get_buffer", 'D5'),
+    ('coerce-send-or', 'spawnbase', "    def _coerce_send_string(self, s):\n        if self.encoding is None and not isinstance(s, bytes):", "    def _coerce_send_string(self, s):\n        if self.encoding is None or not isinstance(s, bytes):", 'D5'),
     ('write-send-twice', 'popen_spawn', "        '''This is similar to send() except that there is no return value.\n        '''\n        self.send(s)", "        '''This is similar to send() except that there is no return value.\n        '''\n        self.send(s)\n        self.send(s[:0])", 'D2'),
 ]
 PRESERVING = [
